@@ -94,7 +94,7 @@ def make_interp(prog: Program, facts, attrs, shapes, g2, valid):
             recv = it.path_of(node.func.value, fr)
             if recv == "grid" and node.func.attr == "ingrid":
                 return MaskV("ingrid", None, None)
-            if recv == "grid" and node.func.attr in ("atsea", "onland") and fr.fi.qual.endswith("Tracker.update"):
+            if recv == "grid" and node.func.attr in ("atsea", "onland") and prog.effective_owners(fr.fi.qual) == {"tracker.Tracker.update"}:
                 # Lemma (C09 R09.1): the land test only ever sees a restored position or an in-grid candidate
                 g = prog.role_func("grid", node.func.attr)
                 it.trace.append((fr.fi.qual, node))
